@@ -203,3 +203,300 @@ Lemma ind_std_burn_rule_undefined (l : list Q) :
 Proof.
   intros H. unfold ind_std_burn_rule. destruct (Z.leb_spec (Z.of_nat (length l)) 1); [reflexivity | lia].
 Qed.
+
+(** * Gaussian noise *)
+
+Lemma n_obs_cell_of l : n_obs (map cell_of l) = n_observed l.
+Proof.
+  unfold n_obs, n_observed, lenQ. do 2 f_equal.
+  induction l as [|[[y m] j] l IH]; [reflexivity|].
+  simpl. unfold observed at 1. simpl. destruct y; simpl; now rewrite IH.
+Qed.
+
+(** observed-entry residual: y^2 + masked (-2 y m + m^2), summed, is the RSS over observed entries —
+    whatever the statistics hold under the mask *)
+Lemma residual_diag l :
+  y_L2 (map cell_of l) + sumQ (map (masked (fun c => (-2) * c_ym c + c_mm c)) (map cell_of l)) == rss l.
+Proof.
+  unfold y_L2, rss. induction l as [|[[y m] j] l IH]; [simpl; ring|].
+  rewrite !map_cons, !sumQ_cons, <- IH.
+  unfold masked, observed, y2, sqr, cell_of; cbn [cy c_ym c_mm]. destruct y; ring.
+Qed.
+
+Lemma noise_ft_var_spec l : noise_ft_var (map cell_of l) == rss l / n_observed l.
+Proof. unfold noise_ft_var. now rewrite residual_diag, n_obs_cell_of. Qed.
+
+Lemma rss_nonneg l : 0 <= rss l.
+Proof.
+  unfold rss. apply sumQ_map_nonneg. intros [[y m] j] _. destruct y; [apply sqr_nonneg | apply Qle_refl].
+Qed.
+
+Lemma all_ok_Forall2 {A} (g : A -> res Q) (l : list A) (vs : list Q) :
+  all_ok (map g l) = Ok vs -> Forall2 (fun x v => g x = Ok v) l vs.
+Proof.
+  revert vs. induction l as [|x l IH]; intros vs H; simpl in H.
+  - injection H as <-. constructor.
+  - destruct (g x) eqn:E; try discriminate.
+    + destruct (all_ok (map g l)) eqn:E2; try discriminate. injection H as <-.
+      constructor; [exact E | now apply IH].
+    + destruct (all_ok (map g l)); discriminate.
+Qed.
+
+(** the diagonal rule as a whole: when it returns, every feature's variance is its own observed-entry
+    quantity, is at least [tol], and the feature has observations *)
+Lemma noise_diag_rule_spec tol nft rows vs :
+  noise_diag_rule tol nft rows = Ok vs ->
+  Forall2 (fun f v => ~ n_obs (column f rows) == 0 /\ v = noise_ft_var (column f rows) /\ tol <= v) (seq 0 nft) vs.
+Proof.
+  intros H. apply all_ok_Forall2 in H. induction H as [|f v fs vs' Hf _ IH]; constructor; [|exact IH].
+  cbv beta zeta in Hf.
+  destruct (Qeq_bool (n_obs (column f rows)) 0) eqn:E; [discriminate|].
+  split; [intros C; apply Qeq_bool_iff in C; congruence|].
+  unfold guard in Hf. destruct (Qlt_bool _ tol) eqn:B; [discriminate|]. injection Hf as <-.
+  split; [reflexivity|]. apply Qnot_lt_le. intros C. apply Qlt_bool_iff in C. congruence.
+Qed.
+
+(** scalar rule with every sum masked *)
+Lemma residual_scalar_masked l :
+  y_L2 (map cell_of l) - 2 * sumQ (map (masked c_ym) (map cell_of l)) + sumQ (map (masked c_mm) (map cell_of l)) == rss l.
+Proof.
+  unfold y_L2, rss. induction l as [|[[y m] j] l IH]; [simpl; ring|].
+  rewrite !map_cons, !sumQ_cons, <- IH.
+  unfold masked, observed, y2, sqr, cell_of; cbn [cy c_ym c_mm]. destruct y; ring.
+Qed.
+
+Lemma noise_scalar_masked_spec l : noise_scalar_var true (map cell_of l) == rss l / n_observed l.
+Proof. unfold noise_scalar_var. now rewrite residual_scalar_masked, n_obs_cell_of. Qed.
+
+(** what the unmasked sum adds: model^2 of the unobserved cells *)
+Definition leaked (cells : list cell) : Q := sumQ (map (fun c => if observed c then 0 else c_mm c) cells).
+
+Lemma sum_mm_split cells : sumQ (map c_mm cells) == sumQ (map (masked c_mm) cells) + leaked cells.
+Proof.
+  unfold leaked. induction cells as [|c l IH]; simpl; [ring|]. rewrite IH. unfold masked. destruct (observed c); ring.
+Qed.
+
+Lemma noise_scalar_excess cells :
+  noise_scalar_var false cells == noise_scalar_var true cells + leaked cells / n_obs cells.
+Proof. unfold noise_scalar_var. rewrite sum_mm_split. unfold Qdiv. ring. Qed.
+
+Lemma leaked_zero cells :
+  (forall c, In c cells -> observed c = false -> c_mm c == 0) -> leaked cells == 0.
+Proof.
+  intros H. unfold leaked. induction cells as [|c l IH]; simpl; [reflexivity|].
+  rewrite IH by (intros; apply H; [now right | assumption]).
+  destruct (observed c) eqn:E; [ring|]. rewrite (H c (or_introl eq_refl) E). ring.
+Qed.
+
+Lemma noise_scalar_partial l :
+  (forall y m j, In (y, m, j) l -> y = None -> m == 0) ->
+  noise_scalar_var false (map cell_of l) == rss l / n_observed l.
+Proof.
+  intros H. rewrite noise_scalar_excess, noise_scalar_masked_spec, leaked_zero.
+  - unfold Qdiv. ring.
+  - intros c Hc Ho. apply in_map_iff in Hc. destruct Hc as [[[y m] j] [<- Hin]].
+    unfold observed in Ho. simpl in *. destruct y; [discriminate|].
+    rewrite (H None m j Hin eq_refl). ring.
+Qed.
+
+(** 2 individuals x 1 visit x 2 features, one entry missing, model = data on the observed entries:
+    the RMS residual over observed entries is 0, the code's rule gives 1/12 *)
+Definition scalar_witness : list (option Q * Q * Q) :=
+  [(Some (1#2), 1#2, 0); (Some (1#2), 1#2, 0); (Some (1#2), 1#2, 0); (None, 1#2, 0)].
+
+Lemma noise_scalar_refuted :
+  exists l, 0 < n_observed l /\ rss l / n_observed l == 0 /\ noise_scalar_var false (map cell_of l) == 1 # 12
+            /\ ~ noise_scalar_var false (map cell_of l) == rss l / n_observed l.
+Proof.
+  exists scalar_witness. split; [reflexivity|]. split; [reflexivity|]. split; [reflexivity|].
+  intros C. vm_compute in C. discriminate.
+Qed.
+
+(** * Mixture *)
+
+Lemma sum_nth_seq (row : list Q) : sumQ (map (fun c => nth c row 0) (seq 0 (length row))) == sumQ row.
+Proof.
+  induction row as [|x row IH]; [reflexivity|].
+  simpl length. rewrite <- cons_seq, <- seq_shift, map_cons, map_map, !sumQ_cons. cbn [nth]. now rewrite IH.
+Qed.
+
+Lemma sum_cols (nc : nat) (Rm : list (list Q)) :
+  Forall (fun row => length row = nc) Rm ->
+  sumQ (map (fun c => sumQ (col c Rm)) (seq 0 nc)) == sumQ (map sumQ Rm).
+Proof.
+  induction 1 as [|row Rm Hr _ IH].
+  - simpl. rewrite (sumQ_map_const 0 (seq 0 nc)). ring.
+  - simpl. rewrite (sumQ_map_plus (fun c => nth c row 0) (fun c => sumQ (col c Rm))), IH.
+    subst nc. now rewrite sum_nth_seq.
+Qed.
+
+Lemma sumQ_map_div {A} (f : A -> Q) (k : Q) l : sumQ (map (fun x => f x / k) l) == sumQ (map f l) / k.
+Proof. induction l as [|x l IH]; simpl; [unfold Qdiv; ring | rewrite IH; unfold Qdiv; ring]. Qed.
+
+Definition stochastic_row (nc : nat) (row : list Q) : Prop :=
+  length row = nc /\ Forall (fun x => 0 <= x) row /\ sumQ row == 1.
+
+Lemma probs_update_spec (nc : nat) (Rm : list (list Q)) :
+  Rm <> [] -> Forall (stochastic_row nc) Rm ->
+  length (probs_update nc Rm) = nc /\ Forall (fun p => 0 <= p) (probs_update nc Rm) /\ sumQ (probs_update nc Rm) == 1.
+Proof.
+  intros Hne Hs. pose proof (lenQ_pos Rm Hne) as Hn. unfold probs_update. split; [now rewrite map_length, seq_length|]. split.
+  - apply Forall_forall. intros p Hp. apply in_map_iff in Hp. destruct Hp as [c [<- _]].
+    apply Qle_shift_div_l; [exact Hn|]. rewrite Qmult_0_l. apply sumQ_map_nonneg.
+    intros row Hrow. rewrite Forall_forall in Hs. destruct (Hs row Hrow) as [_ [Hpos _]].
+    destruct (nth_in_or_default c row 0) as [Hin|E0]; [|rewrite E0; apply Qle_refl].
+    rewrite Forall_forall in Hpos. now apply Hpos.
+  - rewrite (sumQ_map_div (fun c => sumQ (col c Rm)) (lenQ Rm)), sum_cols.
+    + rewrite (sumQ_map_ext sumQ (fun _ => 1)).
+      * rewrite sumQ_map_const. field. intros C. rewrite C in Hn. now apply Qlt_irrefl in Hn.
+      * intros row Hrow. rewrite Forall_forall in Hs. now destruct (Hs row Hrow) as [_ [_ E]].
+    + eapply Forall_impl; [|exact Hs]. now intros row [E _].
+Qed.
+
+Lemma dotQ_scal k w x : dotQ (map (fun a => a / k) w) x == dotQ w x / k.
+Proof.
+  revert x. induction w as [|a w IH]; intros [|b x]; simpl; try (unfold Qdiv; ring).
+  rewrite IH. unfold Qdiv. ring.
+Qed.
+
+(** the mixture mean is the convex combination of the individual values with weights R_ic / sum_i R_ic *)
+Lemma wmean_spec (w x : list Q) :
+  Forall (fun a => 0 <= a) w -> ~ sumQ w == 0 ->
+  exists v, wmean w x = Ok v /\
+            v == dotQ (map (fun a => a / sumQ w) w) x /\
+            Forall (fun a => 0 <= a) (map (fun a => a / sumQ w) w) /\
+            sumQ (map (fun a => a / sumQ w) w) == 1.
+Proof.
+  intros Hpos Hs. unfold wmean. destruct (Qeq_bool (sumQ w) 0) eqn:E; [apply Qeq_bool_iff in E; contradiction|].
+  eexists. split; [reflexivity|]. split; [now rewrite dotQ_scal|].
+  assert (Hsp : 0 < sumQ w).
+  { destruct (Qle_lt_or_eq _ _ (sumQ_nonneg w Hpos)) as [H|H]; [exact H | symmetry in H; contradiction]. }
+  split.
+  - apply Forall_forall. intros p Hp. apply in_map_iff in Hp. destruct Hp as [a [<- Ha]].
+    apply Qle_shift_div_l; [exact Hsp|]. rewrite Qmult_0_l. rewrite Forall_forall in Hpos. now apply Hpos.
+  - rewrite (sumQ_map_div (fun a => a) (sumQ w)), map_id. now field.
+Qed.
+
+Local Open Scope R_scope.
+
+Lemma spread_sum (w : list Q) (s : R) :
+  fold_right Rplus 0 (map (fun a => Q2R a * s) w) = Q2R (sumQ w) * s.
+Proof.
+  induction w as [|a w IH]; simpl.
+  - unfold Q2R; simpl. ring.
+  - rewrite IH, Q2R_plus. ring.
+Qed.
+
+(** the mixture std rules average over individuals a quantity that does not depend on the individual:
+    the responsibilities cancel *)
+Lemma mix_spread_collapse (w : list Q) (s : R) : ~ (sumQ w == 0)%Q -> mix_spread w s = s.
+Proof.
+  intros H. unfold mix_spread. rewrite spread_sum. field.
+  intros C. apply H. apply eqR_Qeq. rewrite C. unfold Q2R; simpl. ring.
+Qed.
+
+Local Close Scope R_scope.
+
+(** * [update_parameters] is batched *)
+Section Batched.
+  Variables (V Stats : Type).
+  Variable ps : list (mparam V Stats).
+  Variable burn : bool.
+  Variable suff : Stats.
+
+  Notation cu p s := (compute_update V Stats p burn s suff).
+
+  Definition pend_step (s : pstate V) (P : nat -> option V) (i : nat) : nat -> option V :=
+    match nth_error ps i with
+    | Some p => fun j => if Nat.eqb j i then Some (cu p s) else P j
+    | None => P
+    end.
+
+  Lemma run_compute (l : list nat) (rest : list op) (s : pstate V) (P : nat -> option V) :
+    run_trace V Stats ps burn suff (map Compute l ++ rest) s P
+    = run_trace V Stats ps burn suff rest s (fold_left (pend_step s) l P).
+  Proof.
+    revert P. induction l as [|i l IH]; intros P; [reflexivity|].
+    simpl. unfold pend_step at 2. destruct (nth_error ps i); apply IH.
+  Qed.
+
+  Definition assign_step (P : nat -> option V) (s : pstate V) (i : nat) : pstate V :=
+    match P i with Some v => set i v s | None => s end.
+
+  Lemma run_assign (l : list nat) (s : pstate V) (P : nat -> option V) :
+    run_trace V Stats ps burn suff (map Assign l) s P = fold_left (assign_step P) l s.
+  Proof.
+    revert s. induction l as [|i l IH]; intros s; [reflexivity|].
+    simpl. unfold assign_step at 2. destruct (P i); apply IH.
+  Qed.
+
+  Lemma pend_fold (s : pstate V) (l : list nat) (P : nat -> option V) (j : nat) :
+    fold_left (pend_step s) l P j =
+    if existsb (Nat.eqb j) l
+    then match nth_error ps j with Some p => Some (cu p s) | None => P j end
+    else P j.
+  Proof.
+    revert P. induction l as [|i l IH]; intros P; [reflexivity|].
+    simpl. rewrite IH. unfold pend_step. destruct (Nat.eqb j i) eqn:E.
+    - apply Nat.eqb_eq in E. subst i. simpl.
+      destruct (nth_error ps j) eqn:Ep.
+      + rewrite Nat.eqb_refl. now destruct (existsb _ l).
+      + now destruct (existsb _ l).
+    - simpl. destruct (nth_error ps i); [rewrite E|]; reflexivity.
+  Qed.
+
+  Lemma assign_fold (P : nat -> option V) (l : list nat) (s : pstate V) (j : nat) :
+    fold_left (assign_step P) l s j =
+    if existsb (Nat.eqb j) l then match P j with Some v => v | None => s j end else s j.
+  Proof.
+    revert s. induction l as [|i l IH]; intros s; [reflexivity|].
+    simpl. rewrite IH. unfold assign_step. destruct (Nat.eqb j i) eqn:E.
+    - apply Nat.eqb_eq in E. subst i. simpl.
+      destruct (P j) eqn:Ep.
+      + unfold set. rewrite Nat.eqb_refl. now destruct (existsb _ l).
+      + now destruct (existsb _ l).
+    - simpl. destruct (P i); [unfold set; rewrite E|]; reflexivity.
+  Qed.
+
+  Lemma existsb_seq (j n : nat) : existsb (Nat.eqb j) (seq 0 n) = (j <? n)%nat.
+  Proof.
+    destruct (Nat.ltb_spec j n) as [H|H].
+    - apply existsb_exists. exists j. split; [apply in_seq; lia | apply Nat.eqb_refl].
+    - destruct (existsb _ _) eqn:E; [|reflexivity]. apply existsb_exists in E.
+      destruct E as [x [Hx E]]. apply Nat.eqb_eq in E. subst. apply in_seq in Hx. lia.
+  Qed.
+
+  (** after [update_parameters], parameter [j] holds its rule evaluated on the PRE-step state [s]
+      (and the statistics in force), whatever the other rules returned; everything else is untouched *)
+  Theorem update_parameters_batched (s : pstate V) (j : nat) :
+    update_parameters V Stats ps burn s suff j =
+    match nth_error ps j with
+    | Some p => cu p s
+    | None => s j
+    end.
+  Proof.
+    unfold update_parameters, batched_trace. rewrite run_compute, run_assign, assign_fold, pend_fold, existsb_seq.
+    destruct (Nat.ltb_spec j (length ps)) as [H|H].
+    - destruct (nth_error ps j) eqn:E; [reflexivity|]. apply nth_error_None in E. lia.
+    - apply nth_error_None in H. now rewrite H.
+  Qed.
+
+  Theorem update_parameters_is_update_all (s : pstate V) (j : nat) (p : mparam V Stats) :
+    nth_error ps j = Some p ->
+    nth_error (update_all V Stats ps burn s suff) j = Some (update_parameters V Stats ps burn s suff j).
+  Proof.
+    intros H. rewrite update_parameters_batched, H. unfold update_all. now rewrite nth_error_map, H.
+  Qed.
+End Batched.
+
+(** non-vacuity: a rule that reads another parameter (as the std rule reads the mean) gets the OLD value in
+    the batched order and the NEW one in the sequential order *)
+Definition ex_params : list (mparam Q unit) :=
+  [ {| rule := fun _ _ => 5; rule_burn := None |};               (* "x_mean": new mean 5 *)
+    {| rule := fun s _ => s 0%nat; rule_burn := None |} ].       (* "x_std": reads x_mean from the state *)
+Definition ex_state : pstate Q := fun _ => 1.
+
+Lemma sequential_differs :
+  update_parameters Q unit ex_params false ex_state tt 1%nat = 1 /\
+  run_trace Q unit ex_params false tt (sequential_trace 2) ex_state (fun _ => None) 1%nat = 5.
+Proof. split; reflexivity. Qed.
